@@ -180,7 +180,7 @@ class TlcResult:
         self.distinct = int(m.group(2)) if m else 0
         d = _DEPTH.search(out)
         self.depth = int(d.group(1)) if d else 0
-        self.rejects = [ln for ln in out.splitlines() if ln.startswith('<<"REJECT"')]
+        self.rejects = [ln for ln in out.splitlines() if re.match(r'<<\s*"REJECT"', ln)]
         self.ok = (rc == 0 and "No error has been found" in out)
         # a specification verdict (invariant / property / postcondition violated) as opposed to
         # an infrastructure failure (parse error, OOM, timeout)
@@ -242,7 +242,7 @@ def reject_lines(res):
     """Line numbers (1-based) of rejected trace lines printed by the trace spec."""
     out = []
     for ln in res.rejects:
-        m = re.match(r'<<"REJECT", (\d+)', ln)
+        m = re.match(r'<<\s*"REJECT", (\d+)', ln)
         if m:
             out.append(int(m.group(1)))
     return out
